@@ -62,8 +62,11 @@ func init() {
 			{Name: "CIDR entry refreshed in place keeps a stale shorter path (seed C15-b)", ExpectRule: "C15.R3", ExpectKey: "(*routing.Table).AddRoute", Edits: []Edit{
 				{File: "internal/routing/table.go", Old: "\t\t\t\tcloned := route.Clone()\n\t\t\t\tcloned.LastUpdate = now\n\t\t\t\tt.routes[key][i] = cloned\n", New: "\t\t\t\tif r.NextHop == route.NextHop {\n\t\t\t\t\tr.Metric = route.Metric\n\t\t\t\t\tr.Sequence = route.Sequence\n\t\t\t\t\tr.LastUpdate = now\n\t\t\t\t} else {\n\t\t\t\t\tcloned := route.Clone()\n\t\t\t\t\tcloned.LastUpdate = now\n\t\t\t\t\tt.routes[key][i] = cloned\n\t\t\t\t}\n"},
 			}},
-			{Name: "rewrite: path length alone as hop count", Edits: []Edit{
+			{Name: "path length alone as hop count (sealed paths do not grow)", ExpectRule: "C15.R2", Edits: []Edit{
 				{File: "internal/flood/flood.go", Old: "\thops := len(path)\n\tif len(seenBy) > hops {\n\t\thops = len(seenBy)\n\t}\n", New: "\thops := len(path)\n"},
+			}},
+			{Name: "seen-by length only as fallback for a missing path (seed C15-e)", ExpectRule: "C15.R2", Edits: []Edit{
+				{File: "internal/flood/flood.go", Old: "\thops := len(path)\n\tif len(seenBy) > hops {\n\t\thops = len(seenBy)\n\t}\n", New: "\thops := len(path)\n\tif hops == 0 {\n\t\thops = len(seenBy)\n\t}\n"},
 			}},
 			{Name: "rewrite: swapped operands, negated, stricter boundary", Edits: []Edit{
 				{File: "internal/flood/flood.go", Old: "\tif f.cfg.MaxHops > 0 && hops > f.cfg.MaxHops {", New: "\tif limit := f.cfg.MaxHops; !(limit <= 0) && !(limit >= hops) {"},
@@ -868,15 +871,36 @@ func runC15(p *kit.Program, r *kit.Report) {
 	// went through a full-table replay (path limit+d long, seen-by list restarted at one entry)
 	badWhy := map[string]string{}
 	nScen := 0
+	// scenario 2 exists when the forwarder can hand the received path data on unchanged (the
+	// branch for encrypted legacy paths): then the path does not grow per hop, only seen-by does
+	scenarios := []int{0, 1}
+	for _, la := range c11ForwardedLits(cx, handler) {
+		if la.lit.typ.Obj().Name() != "RouteAdvertise" {
+			continue
+		}
+		if ep := la.lit.vals["EncPath"]; ep != nil {
+			for _, a := range c12Alts(ep, nil) {
+				if c12IsReceivedEnc(cx, a.v) && len(scenarios) == 2 {
+					scenarios = append(scenarios, 2)
+				}
+			}
+		}
+	}
+	r.Count("path_forwarded_unchanged_branch", len(scenarios)-2)
 	for _, L := range []int64{1, 16, 255} {
 		for _, delta := range []int64{1, 2, 1000} {
-			for _, replay := range []bool{false, true} {
+			for _, scen := range scenarios {
+				replay := scen == 1
 				nScen++
 				ce := &c15Conc{cx: cx, taint: taint, handler: handler, L: L, P: L + delta, S: L + delta}
 				what := fmt.Sprintf("a flooded announcement with a path and a seen-by list of limit+%d entries (limit %d)", delta, L)
 				if replay {
 					ce.S = 1
 					what = fmt.Sprintf("an announcement relayed by a full-table replay: path of limit+%d entries, seen-by list restarted at 1 entry (limit %d)", delta, L)
+				}
+				if scen == 2 {
+					ce.P = 1
+					what = fmt.Sprintf("an announcement whose path is forwarded unchanged at every hop (legacy sealed path: it stays [origin], length 1) with a seen-by list of limit+%d entries (limit %d)", delta, L)
 				}
 				blocks, _ := ce.run(&c15Frame{fn: handler, ints: map[*ssa.Parameter]int64{}, lists: map[*ssa.Parameter]int{}})
 				for _, s := range sinks {
